@@ -3,6 +3,9 @@ import CoupeModel.Model.Rcb
 import CoupeModel.Proofs.Par
 import CoupeModel.Proofs.Rcb
 import CoupeModel.Props.C03
+import CoupeModel.Props.C06
+import CoupeModel.Props.C09
+import CoupeModel.Props.C11
 
 /-!
 # Schedule independence of whole algorithms (C06, second layer)
@@ -454,7 +457,7 @@ theorem splitT_perm (hexact : DistExact) (trees trees' : Nat → SplitTree) (wt 
       subst this
       simp only
       split
-      · simp only [SplitRel, List.append_nil, and_self, and_true]
+      · simp only [SplitRel, List.append_nil, and_true]
         exact ⟨List.Perm.refl _, hp, List.Perm.refl _⟩
       · exact ih _ _ _ _ _
     | some q =>
@@ -473,11 +476,404 @@ theorem splitT_perm (hexact : DistExact) (trees trees' : Nat → SplitTree) (wt 
           have hk : p.key coord = p'.key coord := hexact _ _ _ (hpd.trans hpd'.symm)
           obtain ⟨l, r, l', r', e1, e2, h1, h2, h3⟩ :=
             reorderSplit_perm hp coord idx idx' p p' hpi hpi' hk
-          rw [e1, e2]
-          simp only [SplitRel, and_self, and_true]
+          simp only [he, e1, e2, SplitRel, and_true]
           exact ⟨h1, h2, h3⟩
-        · split
+        · next he =>
+          simp only [he]
+          split
           · exact ih _ _ _ _ _
           · exact ih _ _ _ _ _
+
+/-! ## The recursion -/
+
+/-- The relation between the recursion trees of two arrangements: the same set of
+stores `(cell, part id)`, and the cells are the items' cells. -/
+def TreeRel {ι : Type} (ids : List Nat) : Res (Tree ι) → Res (Tree ι) → Prop
+  | .ok t, .ok t' => t.assign.Perm t'.assign ∧ t.members.Perm ids
+  | .fuel, .fuel => True
+  | _, _ => False
+
+theorem recurseT_perm (hexact : DistExact) (wt : Int → Int → Bool) (cfg : Cfg)
+    (trees trees' : Nat → Nat → SplitTree) :
+    ∀ (k : Nat) (items items' : List (Rcb.Item Int)) (iterId coord : Nat) (sum : Int) (lo hi : List Int),
+      items.Perm items' →
+      TreeRel (items.map (·.id)) (recurseT wt cfg trees k items iterId coord sum lo hi)
+        (recurseT wt cfg trees' k items' iterId coord sum lo hi) := by
+  intro k
+  induction k with
+  | zero =>
+    intro items items' iterId coord sum lo hi hp
+    cases items with
+    | nil =>
+      have : items' = [] := hp.nil_eq.symm
+      subst this
+      simp [recurseT, TreeRel, Tree.assign, Tree.members]
+    | cons x xs =>
+      cases items' with
+      | nil => exact absurd hp.eq_nil (by simp)
+      | cons x' xs' =>
+        simp only [recurseT, TreeRel, Tree.assign, Tree.members]
+        exact ⟨(hp.map _).map _, List.Perm.refl _⟩
+  | succ k ih =>
+    intro items items' iterId coord sum lo hi hp
+    cases items with
+    | nil =>
+      have : items' = [] := hp.nil_eq.symm
+      subst this
+      simp [recurseT, TreeRel, Tree.assign, Tree.members]
+    | cons x xs =>
+      cases items' with
+      | nil => exact absurd hp.eq_nil (by simp)
+      | cons x' xs' =>
+        simp only [recurseT]
+        have hsp := splitT_perm hexact (trees iterId) (trees' iterId) wt coord sum hp cfg.fuel 0
+          (lo.getD coord Coord.zero) (hi.getD coord Coord.zero) none false
+        generalize splitT (trees iterId) wt coord sum (x :: xs) cfg.fuel 0
+          (lo.getD coord Coord.zero) (hi.getD coord Coord.zero) none false = r at hsp ⊢
+        generalize splitT (trees' iterId) wt coord sum (x' :: xs') cfg.fuel 0
+          (lo.getD coord Coord.zero) (hi.getD coord Coord.zero) none false = r' at hsp ⊢
+        cases r with
+        | oob => cases r' <;> simp [SplitRel] at hsp
+        | fuel => cases r' <;> simp [SplitRel] at hsp; simp [TreeRel]
+        | ok o =>
+          cases r' with
+          | oob => simp [SplitRel] at hsp
+          | fuel => simp [SplitRel] at hsp
+          | ok o' =>
+            obtain ⟨hall, hl, hr, hw, hpos, _⟩ := hsp
+            simp only
+            rw [← hw, ← hpos]
+            have ihl := ih o.left o'.left (2 * iterId + 1) ((coord + 1) % cfg.dim) o.weightLeft lo
+              (hi.set coord o.splitPos) hl
+            have ihr := ih o.right o'.right (2 * iterId + 2) ((coord + 1) % cfg.dim)
+              (sum - o.weightLeft) (lo.set coord o.splitPos) hi hr
+            generalize recurseT wt cfg trees k o.left (2 * iterId + 1) ((coord + 1) % cfg.dim)
+              o.weightLeft lo (hi.set coord o.splitPos) = a at ihl ⊢
+            generalize recurseT wt cfg trees' k o'.left (2 * iterId + 1) ((coord + 1) % cfg.dim)
+              o.weightLeft lo (hi.set coord o.splitPos) = a' at ihl ⊢
+            cases a with
+            | oob => cases a' <;> simp [TreeRel] at ihl
+            | fuel => cases a' <;> simp [TreeRel] at ihl; simp [TreeRel]
+            | ok tl =>
+              cases a' with
+              | oob => simp [TreeRel] at ihl
+              | fuel => simp [TreeRel] at ihl
+              | ok tl' =>
+                simp only
+                generalize recurseT wt cfg trees k o.right (2 * iterId + 2) ((coord + 1) % cfg.dim)
+                  (sum - o.weightLeft) (lo.set coord o.splitPos) hi = b at ihr ⊢
+                generalize recurseT wt cfg trees' k o'.right (2 * iterId + 2) ((coord + 1) % cfg.dim)
+                  (sum - o.weightLeft) (lo.set coord o.splitPos) hi = b' at ihr ⊢
+                cases b with
+                | oob => cases b' <;> simp [TreeRel] at ihr
+                | fuel => cases b' <;> simp [TreeRel] at ihr; simp [TreeRel]
+                | ok tr =>
+                  cases b' with
+                  | oob => simp [TreeRel] at ihr
+                  | fuel => simp [TreeRel] at ihr
+                  | ok tr' =>
+                    simp only [TreeRel, Tree.assign, Tree.members] at ihl ihr ⊢
+                    refine ⟨ihl.1.append ihr.1, ?_⟩
+                    have := ihl.2.append ihr.2
+                    rw [← List.map_append] at this
+                    exact this.trans (hall.map _)
+
+/-! ## Stores of the leaves -/
+
+theorem scatter_get_notin (n : Nat) (assign : List (Nat × Nat)) (i : Nat)
+    (h : i ∉ assign.map (·.1)) : (scatter n assign)[i]? = (List.replicate n 0)[i]? := by
+  simp only [scatter, Array.getElem?_toList]
+  rw [scatterFold_notin assign i _ h]
+  simp [List.getElem?_replicate, Array.getElem?_replicate]
+
+/-- Stores to distinct cells in any order leave the same array (`disjointWrites_comm` for
+the model's `scatter`). -/
+theorem scatter_perm (n : Nat) {a a' : List (Nat × Nat)} (hp : a.Perm a')
+    (hnd : (a.map (·.1)).Nodup) : scatter n a = scatter n a' := by
+  have hnd' : (a'.map (·.1)).Nodup := (hp.map _).nodup_iff.1 hnd
+  apply List.ext_getElem?
+  intro i
+  by_cases hi : i < n
+  · by_cases hm : i ∈ a.map (·.1)
+    · obtain ⟨⟨i', p⟩, hmem, rfl⟩ := List.mem_map.1 hm
+      rw [scatter_get n a i' p hnd hmem hi, scatter_get n a' i' p hnd' (hp.mem_iff.1 hmem) hi]
+    · have hm' : i ∉ a'.map (·.1) := fun h => hm ((hp.map _).mem_iff.2 h)
+      rw [scatter_get_notin n a i hm, scatter_get_notin n a' i hm']
+  · rw [List.getElem?_eq_none (by rw [scatter_length]; omega),
+      List.getElem?_eq_none (by rw [scatter_length]; omega)]
+
+/-- What the caller sees of a recursion result under a store order. -/
+def idsRes {ι : Type} (stores : List (Nat × Nat) → List (Nat × Nat)) (n : Nat) :
+    Res (Tree ι) → Outcome
+  | .oob => .oob
+  | .fuel => .fuel
+  | .ok t => .ok (idsOfTreeS stores n t)
+
+theorem idsRes_of_rel {ι : Type} (st st' : List (Nat × Nat) → List (Nat × Nat))
+    (hst : ∀ ws : List (Nat × Nat), (st ws).Perm ws) (hst' : ∀ ws : List (Nat × Nat), (st' ws).Perm ws)
+    (n : Nat) (ids : List Nat) (hnd : ids.Nodup) (r r' : Res (Tree ι)) (h : TreeRel ids r r') :
+    idsRes st n r = idsRes st' n r' := by
+  cases r with
+  | oob => cases r' <;> simp [TreeRel] at h
+  | fuel => cases r' <;> simp [TreeRel] at h; rfl
+  | ok t =>
+    cases r' with
+    | oob => simp [TreeRel] at h
+    | fuel => simp [TreeRel] at h
+    | ok t' =>
+      obtain ⟨h1, h2⟩ := h
+      have hn : ((st t.assign).map (·.1)).Nodup := by
+        rw [((hst t.assign).map _).nodup_iff, assign_map_fst]
+        exact h2.nodup_iff.2 hnd
+      have : scatter n (st t.assign) = scatter n (st' t'.assign) :=
+        scatter_perm n ((hst _).trans (h1.trans (hst' _).symm)) hn
+      simp only [idsRes, idsOfTreeS, this]
+
+/-! ## The sequential schedule is the model -/
+
+theorem splitT_leaf (wt : Int → Int → Bool) (coord : Nat) (sum : Int) (items : List (Rcb.Item Int)) :
+    ∀ (fuel it : Nat) (mn mx : Int) (prev : Option Nat) (mv : Bool),
+      splitT (fun _ => .leaf) wt coord sum items fuel it mn mx prev mv =
+        split wt coord sum items fuel it mn mx prev mv := by
+  intro fuel
+  induction fuel with
+  | zero => intro it mn mx prev mv; rfl
+  | succ fuel ih =>
+    intro it mn mx prev mv
+    simp only [splitT, split, scanT_leaf, ih]
+    generalize scan items coord (Coord.half (Coord.add mn mx)) = s
+    obtain ⟨c, w, n⟩ := s
+    cases n with
+    | none => rfl
+    | some q =>
+      obtain ⟨idx, nd⟩ := q
+      simp only
+      split
+      · next e he =>
+        simp only [he]
+        cases reorderSplit items idx coord with
+        | oob => rfl
+        | fuel => rfl
+        | ok lr => rfl
+      · next he => simp only [he]
+
+theorem recurseT_leaf (wt : Int → Int → Bool) (cfg : Cfg) :
+    ∀ (k : Nat) (items : List (Rcb.Item Int)) (iterId coord : Nat) (sum : Int) (lo hi : List Int),
+      recurseT wt cfg (fun _ _ => .leaf) k items iterId coord sum lo hi =
+        recurse wt cfg k items iterId coord sum lo hi := by
+  intro k
+  induction k with
+  | zero =>
+    intro items iterId coord sum lo hi
+    cases items <;> simp [recurseT, recurse]
+  | succ k ih =>
+    intro items iterId coord sum lo hi
+    cases items with
+    | nil => simp [recurseT, recurse]
+    | cons x xs =>
+      simp only [recurseT, recurse, splitT_leaf, ih]
+      cases split wt coord sum (x :: xs) cfg.fuel 0 (lo.getD coord Coord.zero)
+          (hi.getD coord Coord.zero) none false with
+      | oob => rfl
+      | fuel => rfl
+      | ok r =>
+        simp only
+        cases recurse wt cfg k r.left (2 * iterId + 1) ((coord + 1) % cfg.dim) r.weightLeft lo
+            (hi.set coord r.splitPos) with
+        | oob => rfl
+        | fuel => rfl
+        | ok tl =>
+          simp only
+          cases recurse wt cfg k r.right (2 * iterId + 2) ((coord + 1) % cfg.dim)
+              (sum - r.weightLeft) (lo.set coord r.splitPos) hi with
+          | oob => rfl
+          | fuel => rfl
+          | ok tr => rfl
+
+/-! ## `rcb` -/
+
+theorem runBB_eq_idsRes (wt : Int → Int → Bool) (cfg : Cfg) (iter : Nat) (pts : List (List Int))
+    (ws : List Int) (plen : Nat) (lo hi : List Int) :
+    runBB wt cfg iter pts ws plen lo hi =
+      if ws.length ≠ plen then .lenMismatch
+      else if pts.length ≠ plen then .lenMismatch
+      else if pts.isEmpty then .ok []
+      else idsRes id plen (recurse wt cfg iter (mkItems pts ws) 0 0 ws.sum lo hi) := by
+  unfold runBB runTree
+  split
+  · rfl
+  split
+  · rfl
+  split
+  · rfl
+  cases recurse wt cfg iter (mkItems pts ws) 0 0 ws.sum lo hi <;> rfl
+
+theorem runBBT_eq_idsRes (s : RcbSched) (wt : Int → Int → Bool) (cfg : Cfg) (iter : Nat)
+    (pts : List (List Int)) (ws : List Int) (plen : Nat) (lo hi : List Int) :
+    runBBT s wt cfg iter pts ws plen lo hi =
+      if ws.length ≠ plen then .lenMismatch
+      else if pts.length ≠ plen then .lenMismatch
+      else if pts.isEmpty then .ok []
+      else idsRes s.stores plen (recurseT wt cfg s.split iter (mkItems pts ws) 0 0 ws.sum lo hi) := by
+  unfold runBBT
+  rw [parSum_schedule_free]
+  split
+  · rfl
+  split
+  · rfl
+  split
+  · rfl
+  cases recurseT wt cfg s.split iter (mkItems pts ws) 0 0 ws.sum lo hi <;> rfl
+
+/-- Two schedules of `rcb` (given bounding box) produce the same outcome. -/
+theorem runBBT_schedule_free (hexact : DistExact) (s s' : RcbSched) (hs : s.Valid) (hs' : s'.Valid)
+    (wt : Int → Int → Bool) (cfg : Cfg) (iter : Nat) (pts : List (List Int)) (ws : List Int)
+    (plen : Nat) (lo hi : List Int) :
+    runBBT s wt cfg iter pts ws plen lo hi = runBBT s' wt cfg iter pts ws plen lo hi := by
+  rw [runBBT_eq_idsRes, runBBT_eq_idsRes]
+  split
+  · rfl
+  next hw =>
+  split
+  · rfl
+  next hpl =>
+  split
+  · rfl
+  have hw : ws.length = plen := Classical.byContradiction hw
+  have hpl : pts.length = plen := Classical.byContradiction hpl
+  refine idsRes_of_rel s.stores s'.stores hs hs' plen ((mkItems pts ws).map (·.id)) ?_ _ _
+    (recurseT_perm hexact wt cfg s.split s'.split iter _ _ 0 0 ws.sum lo hi (List.Perm.refl _))
+  rw [mkItems_ids pts ws (by omega)]
+  exact List.nodup_range
+
+theorem runBBT_seq (wt : Int → Int → Bool) (cfg : Cfg) (iter : Nat) (pts : List (List Int))
+    (ws : List Int) (plen : Nat) (lo hi : List Int) :
+    runBBT RcbSched.seq wt cfg iter pts ws plen lo hi = runBB wt cfg iter pts ws plen lo hi := by
+  rw [runBBT_eq_idsRes, runBB_eq_idsRes]
+  simp only [RcbSched.seq, recurseT_leaf]
+
+/-! # MultiJagged -/
+
+section mj
+open Coupe.MultiJagged
+
+/-- Everything rayon decides during one call of `multi_jagged`. -/
+structure MjSched where
+  /-- block lengths of the `fold_with` over a slab of the given length
+  (`compute_split_positions`; the model's `chunk` parameter) -/
+  chunk : Nat → List Nat
+  /-- the leaves (depth-first numbers) in the order their `fetch_add` takes effect -/
+  arrival : List Nat
+  /-- the order in which the leaves' stores take effect -/
+  stores : List (Nat × Nat) → List (Nat × Nat)
+
+def MjSched.Valid (s : MjSched) (numParts : Nat) : Prop :=
+  ChunkOk s.chunk ∧ s.arrival.Perm (List.range numParts) ∧ ∀ ws : List (Nat × Nat), ws.Perm (s.stores ws)
+
+/-- `multi_jagged.rs: multi_jagged` under the schedule `s`: the hierarchy of `MultiJagged.run`
+with the schedule's chunking, then the leaf writes of `Par.mjAssign` (`fetch_add` numbers in
+arrival order, stores in the schedule's order). -/
+def mjIdsT (s : MjSched) (root : Nat → Nat → Nat) (sort : (Nat → Int) → List Nat → List Nat)
+    (dim : Nat) (key : Nat → Nat → Int) (ws : List Nat) (n numParts maxIter : Nat) (p0 : List Nat) :
+    Option (List Nat) :=
+  (MultiJagged.run {} root sort s.chunk dim key ws n numParts maxIter).map
+    (fun h => Par.mjAssign p0 h.leaves s.arrival s.stores)
+
+theorem recurseList_congr (sort : (Nat → Int) → List Nat → List Nat) (c1 c2 : Nat → List Nat)
+    (dim : Nat) (key : Nat → Nat → Int) (ws : List Nat) (coord : Nat) :
+    ∀ (cs : List Scheme) (subs : List (List Nat)),
+      (∀ c ∈ cs, ∀ p ∈ subs, MultiJagged.recurse {} sort c1 dim key ws c coord p =
+        MultiJagged.recurse {} sort c2 dim key ws c coord p) →
+      recurseList {} sort c1 dim key ws cs coord subs = recurseList {} sort c2 dim key ws cs coord subs := by
+  intro cs
+  induction cs with
+  | nil => intro subs _; simp [recurseList]
+  | cons c cs ih =>
+    intro subs h
+    cases subs with
+    | nil => simp [recurseList]
+    | cons p ps =>
+      simp only [recurseList]
+      rw [h c (by simp) p (by simp), ih ps (fun c' hc' p' hp' => h c' (by simp [hc']) p' (by simp [hp']))]
+
+theorem splitManyAux_flatten {α} : ∀ (ps : List Nat) (rest : List α) (drained : Nat) (subs : List (List α)),
+    splitManyAux rest drained ps = some subs → subs.flatten = rest := by
+  intro ps
+  induction ps with
+  | nil => intro rest drained subs h; simp [splitManyAux] at h; subst h; simp
+  | cons p ps ih =>
+    intro rest drained subs h
+    simp only [splitManyAux] at h
+    split at h
+    · cases h
+    · split at h
+      · cases h
+      · split at h
+        · cases h
+        · next subs' hs =>
+          cases h
+          simp [ih _ _ _ hs]
+
+/-- The hierarchy does not depend on how rayon cuts the block scans (at any node, at any
+depth): every node's split positions are chunk free (`split_chunk_free`). -/
+theorem recurse_chunk_free {sort : (Nat → Int) → List Nat → List Nat} (hsort : SortOk sort)
+    {c1 c2 : Nat → List Nat} (h1 : ChunkOk c1) (h2 : ChunkOk c2)
+    (dim : Nat) (key : Nat → Nat → Int) (ws : List Nat) :
+    ∀ (s : Scheme) (coord : Nat) (perm : List Nat), (∀ i ∈ perm, i < ws.length) →
+      MultiJagged.recurse {} sort c1 dim key ws s coord perm =
+        MultiJagged.recurse {} sort c2 dim key ws s coord perm := by
+  intro s
+  induction s using Scheme.induct with
+  | h k mods den next ih =>
+    intro coord perm hp
+    cases k with
+    | zero => simp [MultiJagged.recurse]
+    | succ k =>
+      have hp' : ∀ i ∈ sort (key coord) perm, i < ws.length :=
+        fun i hi => hp i ((hsort.perm _ _).mem_iff.1 hi)
+      simp only [MultiJagged.recurse]
+      rw [split_chunk_free (c1 (sort (key coord) perm).length) (c2 (sort (key coord) perm).length)
+        ws _ mods den hp' (h1 _) (h2 _)]
+      cases splitPositions {} (c2 (sort (key coord) perm).length) ws (sort (key coord) perm) mods den with
+      | none => rfl
+      | some pos =>
+        simp only
+        cases hsm : splitMany (sort (key coord) perm) pos with
+        | none => rfl
+        | some subs =>
+          simp only
+          cases next with
+          | none => rfl
+          | some cs =>
+            simp only
+            congr 1
+            apply recurseList_congr
+            intro c hc p hpm
+            apply ih cs rfl c hc
+            intro i hi
+            have hfl := splitManyAux_flatten _ _ _ _ hsm
+            exact hp' i (by rw [← hfl]; exact List.mem_flatten.2 ⟨p, hpm, hi⟩)
+
+theorem run_chunk_free {sort : (Nat → Int) → List Nat → List Nat} (hsort : SortOk sort)
+    {c1 c2 : Nat → List Nat} (h1 : ChunkOk c1) (h2 : ChunkOk c2) (root : Nat → Nat → Nat)
+    (dim : Nat) (key : Nat → Nat → Int) (ws : List Nat) (n numParts maxIter : Nat) (hws : n ≤ ws.length) :
+    MultiJagged.run {} root sort c1 dim key ws n numParts maxIter =
+      MultiJagged.run {} root sort c2 dim key ws n numParts maxIter := by
+  unfold MultiJagged.run
+  cases scheme root numParts maxIter with
+  | none => rfl
+  | some s =>
+    simp only
+    exact recurse_chunk_free hsort h1 h2 dim key ws s 0 _
+      (fun i hi => by have := List.mem_range.1 hi; omega)
+
+/-- The sequential leaf writes of `Model/MultiJagged.lean` are the writes of `Par.mjAssign`
+performed in program order. -/
+theorem mjAssign_id_eq_assign (p0 : List Nat) (leaves : List (List Nat)) (arrival : List Nat) :
+    Par.mjAssign p0 leaves arrival id = MultiJagged.assign (fetchAddIds arrival) leaves p0 := by
+  simp only [Par.mjAssign, MultiJagged.assign, disjointWrites, labelWrites, enumerate, id,
+    List.foldl_flatMap, List.foldl_map, write]
+
+end mj
 
 end Coupe.ParAlgos
